@@ -35,6 +35,7 @@ def main(rep, tier, only):
     rep.rule("TREE-P3", "release / pop_back / pop_front null the parent of the node they hand out", floor=3)
     rep.rule("TREE-P4", "insert links the inserted node to this (children_.insert(...)->parent_ = this) and every "
                         "other insertion entry point goes through it", floor=3)
+    rep.rule("TREE-ID", "child_position identifies the child by address among the parent's children (a node is its identity, not its value)", floor=2)
     rep.rule("TREE-C1", "constructors initialise parent_ with nullptr and children_ empty or through copy_children / move_children", floor=5)
     by_name = {}
     for fn in fns:
@@ -183,6 +184,53 @@ def main(rep, tier, only):
                 rep.ok("TREE-P4", k2, F.primary_site(fn), F.describe(fn), how="delegates-to-insert")
             else:
                 rep.fail("TREE-P4", k2, F.primary_site(fn), F.describe(fn), why="adds a child without going through insert (which links it)")
+    # ---- TREE-ID: child_position finds the child by identity (address), not by value
+    seen = set()
+    for fn in db.fns("fcppt::container::tree::child_position"):
+        u = fn["_unit"]
+        k2 = "child_position<%s>" % ",".join(fn.get("targs") or [])
+        if k2 in seen or len(fn.get("params", [])) != 2:
+            continue
+        seen.add(k2)
+        parent, child = fn["params"][0], fn["params"][1]
+        how = None
+        for n in F.walk(fn.get("body"), into_lambdas=False):
+            if n.get("k") != "call" or not n.get("args"):
+                continue
+            a0 = T.unwrap(u, n["args"][0])
+            if not (a0 is not None and a0.get("k") == "ref" and a0.get("id") == parent["id"]):
+                continue
+            for lam in [x for a in n["args"][1:] for x in F.walk(a) if x.get("k") == "lambda"]:
+                for op in lam.get("ops", []):
+                    own = set(p_["id"] for p_ in op.get("params", []))
+                    for r in F.walk(op.get("body"), into_lambdas=False):
+                        if r.get("k") != "return":
+                            continue
+                        e = T.unwrap(u, r.get("e"))
+                        if e is None or e.get("k") != "binop" or e.get("op") != "==":
+                            continue
+                        sides = []
+                        for x in (e["l"], e["r"]):
+                            while x is not None and x.get("k") in ("icast", "cast") and x.get("e") is not None:
+                                x = x["e"]
+                            if x is not None and x.get("k") == "call" and T.callee_qn(u, x) == "std::addressof" and x.get("args"):
+                                y = T.unwrap(u, x["args"][0])
+                                if y is not None and y.get("k") == "ref":
+                                    sides.append(y["id"])
+                                continue
+                            x = T.unwrap(u, x)
+                            if x is not None and x.get("k") == "unop" and x.get("op") == "&":
+                                y = T.unwrap(u, x["e"])
+                                if y is not None and y.get("k") == "ref":
+                                    sides.append(y["id"])
+                        if len(sides) == 2 and child["id"] in sides and (set(sides) - {child["id"]}) <= own and len(set(sides)) == 2:
+                            how = "&child == &element over parent"
+        if how:
+            rep.ok("TREE-ID", k2, F.primary_site(fn), F.describe(fn), how=how)
+        else:
+            rep.fail("TREE-ID", k2, F.primary_site(fn), F.describe(fn),
+                     why="the position of `%s` among the children of `%s` is not found by comparing addresses (`&child == &element`): "
+                         "a structurally equal sibling would be reported instead" % (child["name"], parent["name"]))
     rep.explanation = ("Invariant-preservation rules over every member function of tree::object (type-resolved AST of the "
                        "explicit instantiations in drv_containers). Decides that no operation can break the parent/child "
                        "link invariant; does not decide traversal results.")
